@@ -34,8 +34,10 @@ def check_monomial(chk, v, name, coefs, minus_one):
     N = P(src, "N")
     A = sym.sym(a)
     facts = [A, sym.sub(sym.sub(sym.mul(I(2), N), I(1)), A), sym.sub(N, I(1))]       # 0 <= a <= 2N-1, N >= 1 (documented contract)
-    ok, detail, infos = pam.check_map(stores, P(res, coefs), P(src, coefs), N, 1, sym.neg(A), facts,
-                                      extra_terms=[(-1, "same")] if minus_one else [], want_op="=")
+    ok, detail, infos = pam.check_map_cases(stores, P(res, coefs), P(src, coefs), N, 1, sym.neg(A), facts,
+                                            extra_terms=[(-1, "same")] if minus_one else [], want_op="=")
+    if ok is None:
+        chk.broken("%s: %s" % (name, detail))
     guards = {tuple(p["guards"]) for p in stores}
     if ok:
         if len(guards) == 2:
@@ -147,26 +149,72 @@ def check_schoolbook(chk, v, name, negacyclic):
     chk.vcount(v.name, "R2.schoolbook_functions")
 
 
+NAIVE_NEGACYCLIC = ("torusPolynomialMultNaive_aux",)     # R = A*B mod X^N+1 on raw arrays (decided by R2)
+
+
 def check_wrapper(chk, v, name, op):
+    """every control path of a Karatsuba entry point (paths = guard alternatives, e.g. a small-N shortcut with an early
+    return) leaves result (op) poly1*poly2 mod X^N+1"""
     f = v.fn(name)
     ps, _ = summ.pieces(v, f, hooks=NOINLINE)
     res, p1, p2 = [p["n"] for p in f.params[:3]]
     N = P(p1, "N")
     key = "%s reduces the 2N-1 coefficient product mod X^N+1 with '%s'" % (name, op)
-    calls = [p for p in ps if p["kind"] == "call" and p["name"] == "Karatsuba_aux"]
-    stores = [p for p in ps if p["kind"] == "store" and sym.root_of(p["lv"]) == sym.sym(res)]
+    groups = {}
+    for p in ps:
+        if p["kind"] == "call" and p["name"] in ("Karatsuba_aux",) + NAIVE_NEGACYCLIC or \
+                (p["kind"] == "store" and sym.root_of(p["lv"]) == sym.sym(res)):
+            groups.setdefault(tuple(p["guards"]), []).append(p)
     problems = []
-    if len(calls) != 1:
-        chk.broken("%s: expected one Karatsuba_aux call" % name)
-    a = calls[0]["args"]
-    Rt = a[0]
-    if a[1] != P(p1, "coefs") or a[2] != P(p2, "coefsT") or a[3] != N:
-        problems.append("Karatsuba_aux called on (%s, %s, %s)" % (sym.show(a[1]), sym.show(a[2]), sym.show(a[3])))
-    loop_st = [p for p in stores if p["loops"]]
-    top_st = [p for p in stores if not p["loops"]]
-    if len(loop_st) != 1 or len(top_st) != 1:
-        problems.append("expected one reduction loop and one top coefficient store, found %d/%d" % (len(loop_st), len(top_st)))
-    else:
+    oks = []
+    if not any(p["kind"] == "call" and p["name"] == "Karatsuba_aux" for g in groups.values() for p in g):
+        chk.broken("%s: expected a Karatsuba_aux call" % name)
+    for gk, gps in sorted(groups.items(), key=lambda kv: repr(kv[0])):
+        under = (" under %s" % [sym.show(x) for x in gk]) if gk else ""
+        calls = [p for p in gps if p["kind"] == "call"]
+        stores = [p for p in gps if p["kind"] == "store"]
+        if len(calls) != 1:
+            chk.broken("%s: %d product calls on the path%s" % (name, len(calls), under))
+        a = calls[0]["args"]
+        Rt = a[0]
+        if a[1] != P(p1, "coefs") or a[2] != P(p2, "coefsT") or a[3] != N:
+            problems.append("%s called on (%s, %s, %s)%s" % (calls[0]["name"], sym.show(a[1]), sym.show(a[2]), sym.show(a[3]), under))
+            continue
+        if calls[0]["name"] in NAIVE_NEGACYCLIC:
+            # already reduced: either written straight into result ('=') or combined coefficient by coefficient over [0,N)
+            if Rt == P(res, "coefsT"):
+                if op != "=" or stores:
+                    problems.append("the schoolbook product overwrites result%s where '%s' is expected" % (under, op))
+                else:
+                    oks.append("schoolbook product written to result%s" % under)
+                continue
+            terms = []
+            for st in stores:
+                if len(st["loops"]) != 1 or st["op"] != op:
+                    problems.append("statement '%s %s %s'%s: expected result[i] %s T[i]" % (sym.show(st["lv"]), st["op"], sym.show(st["val"])[:60], under, op))
+                    continue
+                lp = st["loops"][0]
+                if st["lv"][0] != "idx" or st["lv"][1] != P(res, "coefsT") or st["val"] != sym.idx(Rt, st["lv"][2]):
+                    problems.append("statement '%s %s %s'%s does not combine equal positions" % (sym.show(st["lv"]), st["op"], sym.show(st["val"])[:60], under))
+                    continue
+                terms.append((lp, st["lv"][2], 1))
+            if terms:
+                from sa import coverage
+                status, detail = coverage.cover_1d(terms, N)
+                if status == "unknown":
+                    chk.broken("%s: %s" % (name, detail))
+                if status == "refuted":
+                    problems.append("shortcut path%s: result[i] %s T[i] does not reach every coefficient: %s" % (under, op, detail))
+                else:
+                    oks.append("schoolbook shortcut%s combines [0,N)" % under)
+            elif not problems:
+                problems.append("the schoolbook product on the path%s is never combined into result" % under)
+            continue
+        loop_st = [p for p in stores if p["loops"]]
+        top_st = [p for p in stores if not p["loops"]]
+        if len(loop_st) != 1 or len(top_st) != 1:
+            chk.broken("%s: reduction after Karatsuba_aux%s not recognised (%d loop statements, %d single statements)" % (
+                name, under, len(loop_st), len(top_st)))
         lp = loop_st[0]["loops"][0]
         i = lp["var"]
         want_val = sym.sub(sym.idx(Rt, i), sym.idx(Rt, sym.add(N, i)))
@@ -180,7 +228,13 @@ def check_wrapper(chk, v, name, op):
         if t["lv"] != sym.idx(P(res, "coefsT"), top) or t["op"] != op or t["val"] != sym.idx(Rt, top):
             problems.append("top statement is '%s %s %s', expected 'result[N-1] %s R[N-1]'" % (
                 sym.show(t["lv"]), t["op"], sym.show(t["val"]), op))
-    chk.require(not problems, "R3", key, where=f.where, ok="result[i] %s R[i] - R[N+i] for i < N-1 and result[N-1] %s R[N-1]" % (op, op),
+        oks.append("result[i] %s R[i] - R[N+i] for i < N-1 and result[N-1] %s R[N-1]%s" % (op, op, under))
+    # the guard alternatives must be exhaustive: a single unguarded path, or g / !g
+    gks = [g for g in groups]
+    if len(gks) > 1:
+        if not (len(gks) == 2 and all(len(g) == 1 for g in gks) and (gks[0][0] == sym.unop("!", gks[1][0]) or gks[1][0] == sym.unop("!", gks[0][0]))):
+            chk.broken("%s: path alternatives %s not recognised as complementary" % (name, [[sym.show(x) for x in g] for g in gks]))
+    chk.require(not problems, "R3", key, where=f.where, ok="; ".join(oks)[:300],
                 bad="; ".join(problems)[:400], variant=v.name)
     chk.vcount(v.name, "R3.karatsuba_wrappers")
 
